@@ -56,7 +56,11 @@ def install():
 
 def run_chain_dispatch(e, ob, extra_info, timeout=60):
     if extra_info.get("family") == "fecc":
-        return run_chain_ecc(e, ob, extra_info, timeout)
+        try:
+            return run_chain_ecc(e, ob, extra_info, timeout)
+        except ChainFail as cf:
+            ob._chain_fail = str(cf)
+            raise
     return _orig_run_chain(e, ob, extra_info, timeout)
 
 
@@ -948,7 +952,21 @@ def search_forged(e, f, label="", timeout=40):
     outs = [e.v(c) for c in S.outs]
     ins_ = set(a for a in (e.v(c) for c in S.ins) if not isinstance(a, int))
     fs = _syms(f)
-    F0 = set(a for a in outs if not isinstance(a, int) and a in fs) or set(a for a in outs if not isinstance(a, int))
+    # the formula speaks of residues / sums: unfold derived atoms to the cells they are computed from
+    opsof = {}
+    for it in e.order:
+        if it[0] in ("mul", "mm", "addm"):
+            opsof[it[1]] = [a for a in (it[2], it[3]) if not isinstance(a, int)]
+        elif it[0] in ("mod", "res"):
+            opsof[it[1]] = [a for _, a in it[2] if not isinstance(a, int)]
+    todo_, seen = list(fs), set()
+    while todo_:
+        a = todo_.pop()
+        if a in seen:
+            continue
+        seen.add(a)
+        todo_ += opsof.get(a, [])
+    F0 = set(a for a in outs if not isinstance(a, int) and a in seen) or set(a for a in outs if not isinstance(a, int))
     skipped = set(id(g) for g in e.skipped)
     rows = []
     for g in d["gates"]:
